@@ -96,6 +96,19 @@ def inside_histories():
     return out
 
 
+def shared_edge_histories():
+    """two connectors whose routes run over the same visibility edge (both go over the tops of two posts), then a shape lands across
+    that edge: both have to be rerouted, not only the one that was routed first"""
+    P, Q, B = [4, 1, 6, 10], [14, 0, 16, 10], [9, -2, 10, 2]
+    ends = [[4, 1, 0, 0, 3], [4, 1, 1, 20, 3], [4, 2, 0, 0, 4], [4, 2, 1, 20, 4]]
+    out = []
+    out.append(ends + [[1, 1] + P, [1, 2] + Q, [5], [1, 3] + B, [5]])
+    out.append(ends + [[1, 1] + P, [1, 2] + Q, [5], [1, 3] + [9, -12, 10, -8], [5], [2, 3, 0, 10], [5]])          # moved across the edge
+    out.append(ends + [[1, 1] + P, [1, 2] + Q, [5], [6, 0], [1, 3] + B, [6, 1], [5]])                            # transactions off
+    out.append([[1, 1] + P, [1, 2] + Q] + ends + [[5], [1, 3] + B, [5], [3, 3], [5]])                               # and taken away again
+    return out
+
+
 def trace_lines(h, res):
     lines = [{'e': 'Reset'}]
     stepat = {s['op']: s for s in res['steps']}
@@ -148,7 +161,7 @@ def main(tier):
     nwall0 = len(hists)
     hists = hists + wall_histories() * 2
     nins0 = len(hists)
-    hists = hists + inside_histories()
+    hists = hists + inside_histories() + shared_edge_histories()
     hf = os.path.join(d, 'hists.txt')
     cfgs = []
     with open(hf, 'w') as f:
